@@ -20,6 +20,9 @@ import (
 	"time"
 
 	rwl "github.com/SKAARHOJ/rawpanel-lib"
+	log "github.com/s00500/env_logger"
+	"github.com/sirupsen/logrus"
+	"io"
 	rwp "github.com/SKAARHOJ/rawpanel-lib/ibeam_rawpanel"
 	"google.golang.org/protobuf/proto"
 	"google.golang.org/protobuf/reflect/protoreflect"
@@ -28,6 +31,11 @@ import (
 func init() {
 	props["C06"] = genC06
 	replays["C06"] = replayC06
+	// the library logs warnings on STDOUT through env_logger; they would corrupt the case stream
+	l := logrus.New()
+	l.SetOutput(io.Discard)
+	l.SetLevel(logrus.PanicLevel)
+	log.ConfigureAllLoggers(l, "")
 }
 
 type c06res struct {
@@ -409,6 +417,29 @@ func genC06(tier string, rng *Rng) {
 			add("decout", [][]byte{[]byte(kw + "5" + a)})
 		}
 	}
+	// hostile numbers inside otherwise grammatical graphics lines (part counts, sizes, offsets, ids)
+	bigs := []string{"0", "1", "2", "3", "255", "65535", "70000", "1048576", "16777216", "4294967295", "4294967296", "17592186044416", "281474976710656",
+		"9223372036854775807", "9223372036854775808", "18446744073709551615", "99999999999999999999999"}
+	for _, kw := range []string{"HWCg#", "HWCgRGB#", "HWCgGray#"} {
+		for _, b := range bigs {
+			for _, ln := range []string{
+				kw + "1=0/" + b + ",8x8:QUFB", kw + "1=0/1," + b + "x8:QUFB", kw + "1=0/1,8x" + b + ":QUFB", kw + "1=0/1,8x8," + b + "," + b + ":QUFB",
+				kw + "1=" + b + ":QUFB", kw + b + "=0/1,8x8:QUFB", kw + "1=" + b + "/" + b + "," + b + "x" + b + ":"} {
+				add("decin", [][]byte{[]byte(ln)})
+				add("reader", [][]byte{[]byte(ln)})
+				add("reader", [][]byte{[]byte(ln), []byte(kw + "1=1:QUFB"), []byte(kw + "1=2:QUFB")})
+				add("decin", [][]byte{[]byte(ln), []byte(kw + "1=1:QUFB"), []byte(kw + "1=2:QUFB")})
+			}
+		}
+	}
+	for _, b := range bigs {
+		for _, kw := range []string{"HWC#", "HWCc#", "HWCx#", "HWCt#", "HWCrawADCValues#", "Flag#", "Mem", "HeartBeatTimer=", "PanelBrightness="} {
+			add("decin", [][]byte{[]byte(kw + b), []byte(kw + b + "=" + b), []byte(kw + "1=" + b), []byte(kw + b + "," + b + "=" + b + "|" + b + "|" + b)})
+		}
+		for _, kw := range []string{"HWC#", "map=", "Mem", "Flag#", "_heartBeatTimer=", "_sleepTimer="} {
+			add("decout", [][]byte{[]byte(kw + b), []byte(kw + b + "=Down"), []byte(kw + b + "." + b + "=Abs:" + b), []byte(kw + b + ":" + b), []byte(kw + "A=" + b)})
+		}
+	}
 	// very long lines
 	long := make([]byte, 1<<20)
 	for i := range long {
@@ -494,6 +525,15 @@ func genC06(tier string, rng *Rng) {
 	for _, w := range enumSweep(func() proto.Message { return &rwp.OutboundMessage{} }) {
 		add("encout", [][]byte{w})
 	}
+	// 2c. sparse scalar sweep: in every (nested) message type, every single scalar field and every PAIR
+	//     of scalar fields set alone to small / boundary values in an otherwise empty message
+	//     (e.g. a text state holding nothing but Formatting=7 and SolidHeaderBar=true)
+	for _, w := range scalarPairSweep(func() proto.Message { return &rwp.InboundMessage{} }, thorough) {
+		add("encin", [][]byte{w})
+	}
+	for _, w := range scalarPairSweep(func() proto.Message { return &rwp.OutboundMessage{} }, thorough) {
+		add("encout", [][]byte{w})
+	}
 	// 3. random messages through reflection (sparse and dense presence), and mutated wire bytes
 	for n := 0; n < 2500*mult; n++ {
 		p := rng.Pick([]int{15, 40, 70, 100})
@@ -577,6 +617,104 @@ func enumSweep(newRoot func() proto.Message) [][]byte {
 				}
 			} else if fd.Kind() == protoreflect.MessageKind {
 				walk(fd.Message(), append(append([]protoreflect.FieldDescriptor{}, path...), fd), depth+1)
+			}
+		}
+	}
+	walk(newRoot().ProtoReflect().Descriptor(), nil, 0)
+	return res
+}
+
+// scalarPairSweep: for each message type reachable from the root (one path each), build messages in which
+// the path is populated and exactly one or two scalar fields of the target message are set.
+func scalarPairSweep(newRoot func() proto.Message, thorough bool) [][]byte {
+	var res [][]byte
+	seen := map[string]bool{}
+	valsFor := func(fd protoreflect.FieldDescriptor) []protoreflect.Value {
+		switch fd.Kind() {
+		case protoreflect.BoolKind:
+			return []protoreflect.Value{protoreflect.ValueOfBool(true)}
+		case protoreflect.EnumKind:
+			vs := []protoreflect.Value{}
+			for _, v := range []int32{1, 2, 7, 10, 11, 12} {
+				vs = append(vs, protoreflect.ValueOfEnum(protoreflect.EnumNumber(v)))
+			}
+			return vs
+		case protoreflect.Int32Kind, protoreflect.Sint32Kind, protoreflect.Sfixed32Kind:
+			return []protoreflect.Value{protoreflect.ValueOfInt32(1), protoreflect.ValueOfInt32(-1)}
+		case protoreflect.Uint32Kind, protoreflect.Fixed32Kind:
+			return []protoreflect.Value{protoreflect.ValueOfUint32(1), protoreflect.ValueOfUint32(4294967295)}
+		case protoreflect.Int64Kind, protoreflect.Sint64Kind, protoreflect.Sfixed64Kind:
+			return []protoreflect.Value{protoreflect.ValueOfInt64(1)}
+		case protoreflect.Uint64Kind, protoreflect.Fixed64Kind:
+			return []protoreflect.Value{protoreflect.ValueOfUint64(1)}
+		case protoreflect.FloatKind:
+			return []protoreflect.Value{protoreflect.ValueOfFloat32(1.5)}
+		case protoreflect.DoubleKind:
+			return []protoreflect.Value{protoreflect.ValueOfFloat64(1.5)}
+		case protoreflect.StringKind:
+			return []protoreflect.Value{protoreflect.ValueOfString("x")}
+		case protoreflect.BytesKind:
+			return []protoreflect.Value{protoreflect.ValueOfBytes([]byte{1})}
+		}
+		return nil
+	}
+	build := func(path []protoreflect.FieldDescriptor, sets map[protoreflect.FieldDescriptor]protoreflect.Value) {
+		root := newRoot()
+		m := root.ProtoReflect()
+		for _, fd := range path {
+			if fd.IsList() {
+				l := m.Mutable(fd).List()
+				l.Append(l.NewElement())
+				m = l.Get(l.Len() - 1).Message()
+			} else {
+				m = m.Mutable(fd).Message()
+			}
+			if idf := m.Descriptor().Fields().ByName("HWCIDs"); idf != nil && idf.IsList() {
+				m.Mutable(idf).List().Append(protoreflect.ValueOfUint32(7))
+			}
+		}
+		for fd, v := range sets {
+			if fd.IsList() {
+				m.Mutable(fd).List().Append(v)
+			} else {
+				m.Set(fd, v)
+			}
+		}
+		if b, err := proto.Marshal(root); err == nil {
+			res = append(res, b)
+		}
+	}
+	var walk func(md protoreflect.MessageDescriptor, path []protoreflect.FieldDescriptor, depth int)
+	walk = func(md protoreflect.MessageDescriptor, path []protoreflect.FieldDescriptor, depth int) {
+		if depth > 5 || seen[string(md.FullName())] {
+			return
+		}
+		seen[string(md.FullName())] = true
+		fds := md.Fields()
+		var scalars []protoreflect.FieldDescriptor
+		for i := 0; i < fds.Len(); i++ {
+			fd := fds.Get(i)
+			if fd.IsMap() {
+				continue
+			}
+			if fd.Kind() == protoreflect.MessageKind {
+				walk(fd.Message(), append(append([]protoreflect.FieldDescriptor{}, path...), fd), depth+1)
+			} else if fd.Name() != "HWCIDs" {
+				scalars = append(scalars, fd)
+			}
+		}
+		for i, a := range scalars {
+			for _, va := range valsFor(a) {
+				build(path, map[protoreflect.FieldDescriptor]protoreflect.Value{a: va})
+				for j := i + 1; j < len(scalars); j++ {
+					vbs := valsFor(scalars[j])
+					if !thorough && len(vbs) > 2 {
+						vbs = vbs[:2]
+					}
+					for _, vb := range vbs {
+						build(path, map[protoreflect.FieldDescriptor]protoreflect.Value{a: va, scalars[j]: vb})
+					}
+				}
 			}
 		}
 	}
